@@ -335,13 +335,38 @@ fn make_requests(seed: u64, n: usize) -> Vec<Req> {
         } else {
             0
         };
-        let (case, facts) = make_case(&l, &cfg, &mut sp, &Overrides::default(), delta);
+        let (mut case, mut facts) = make_case(&l, &cfg, &mut sp, &Overrides::default(), delta);
+        // The expected signature is the secret here, and some of its shapes are special to code that massages it before
+        // comparing (trimming zeroes, parsing it as a number): every second request is re-keyed until its signature begins
+        // with '0', every fourth until it ends with '0'.
+        let want: Option<fn(&str) -> bool> = match k % 4 {
+            1 => Some(|s| s.starts_with('0')),
+            3 => Some(|s| s.ends_with('0') && !s.starts_with('0')),
+            _ => None,
+        };
+        if let Some(pred) = want {
+            let stem: String = l.secret.chars().take(34).collect();
+            for n in 0..2000u32 {
+                if pred(&facts.sig) {
+                    break;
+                }
+                l.secret = format!("{}{:05}", stem, n);
+                let mut sr = Rng::keyed(seed, "C07", "spell", k as u64, 0);
+                let mut sp = Speller {
+                    r: &mut sr,
+                    level: 0,
+                };
+                let (c2, f2) = make_case(&l, &cfg, &mut sp, &Overrides::default(), delta);
+                case = c2;
+                facts = f2;
+            }
+        }
         let mut script = sv::model::Script::derive(&l.secret);
         if k % 2 == 1 {
             sv::props::c15::gen_identity(&mut r, &mut script);
         }
         v.push(Req {
-            label: format!("{} (key {})", label, k / 8),
+            label: format!("{} (key {}; signature {}…{})", label, k / 8, &facts.sig[..2], &facts.sig[62..]),
             logical: l,
             cfg: case.cfg.clone(),
             sig: facts.sig,
